@@ -45,6 +45,7 @@ MonInit == [ call |-> NoCall,
              prevFailed |-> FALSE,
              hadGood |-> FALSE,    \* valid credentials were stored at some point (a failed exchange must not lose them: C08 recovery)
              devfault |-> FALSE,   \* a connect attempt failed during the running device-level operation
+             afterAuth |-> FALSE,  \* the previous call was an authentication that reported success
              bad |-> {} ]
 
 Flag(m, name) == [m EXCEPT !.bad = @ \cup {name}]
@@ -226,12 +227,15 @@ OnRet(m, e) ==
       b16b == IF cl.fault /\ ~cl.connfail /\ ~ok /\ e.r \notin AllowedOutcomes
                THEN {<<"C08", "an exchange hit by a fault (peer close, error packet, garbage) surfaced as something other than a protocol error, authentication error or timeout">>} ELSE {}
       (* the handshake a send performs on its own went unanswered: it is retransmitted like any request and ends in a timeout when its budget is used up *)
+      (* authentication succeeded, so client and device hold the same session key: the exchange that follows with a prompt device works *)
+      b18 == IF cl.op = "send" /\ m.afterAuth /\ cl.benign /\ cl.canSucceed /\ ~ok
+               THEN {<<"C06", "the exchange right after a successful authentication failed with a promptly responding device (client and device do not hold the same session key)">>} ELSE {}
       b17 == IF cl.op = "send" /\ cl.silent /\ cl.tx = 0 /\ cl.hs > 0 /\ ~cl.cancelled /\ (cl.hs # HSRetries \/ e.r # "timeout")
                THEN {<<"C08", "unanswered handshake of a send did not end in a timeout after exactly the handshake retry budget">>} ELSE {}
       b13 == IF cl.op = "auth" /\ cl.genuine /\ cl.canSucceed /\ ~ok /\ e.r # "cancelled"
                THEN {<<"C06", "authentication failed although the device's reply proved knowledge of the key">>} ELSE {}
-  IN [ m EXCEPT !.bad = @ \cup b1 \cup b2 \cup b3 \cup b4 \cup b5 \cup b5b \cup b6 \cup b7 \cup b8 \cup b9 \cup b10 \cup b11 \cup b12 \cup b13 \cup b14 \cup b15 \cup b16 \cup b16b \cup b17,
-                !.call = NoCall, !.stored = e.stored, !.prevFailed = ~ok,
+  IN [ m EXCEPT !.bad = @ \cup b1 \cup b2 \cup b3 \cup b4 \cup b5 \cup b5b \cup b6 \cup b7 \cup b8 \cup b9 \cup b10 \cup b11 \cup b12 \cup b13 \cup b14 \cup b15 \cup b16 \cup b16b \cup b17 \cup b18,
+                !.call = NoCall, !.stored = e.stored, !.prevFailed = ~ok, !.afterAuth = (cl.op = "auth" /\ ok),
                 !.hadGood = @ \/ e.stored = "good",
                 !.conns = [c \in 1..Len(m.conns) |-> IF c = m.cur /\ e.r = "frames" THEN [m.conns[c] EXCEPT !.stray = 0, !.straybad = 0] ELSE m.conns[c]] ]
 
